@@ -18,6 +18,7 @@ import z3
 
 from .. import symx, stubs, surfunit as su, rotations
 from ..symx import SymReal, ENG, explore, check_sat, model_value
+from ..ratfn import RatFn
 from ..sem import t4 as t4sem, mcnp as ref, num as n
 from ..common import Report, run_pool, replay_dir, run_replay, dec, seed as seed_value
 
@@ -505,7 +506,60 @@ def run_chain(task):
     return res
 
 
+def facet_deck(rnd):
+    """a cell bounded by FACETS of a macrobody and carrying a TRCL (or placed by FILL): the facet index must
+    survive the transformation of the cell."""
+    from .. import deck as dk, gen
+    d = dk.Deck()
+    pre = []
+    bud = gen.Budget(rnd, 3)
+    kind = rnd.choice(['rpp', 'box', 'rcc', 'rhp'])
+    a = bud.num('a', pre, positive=True, choices=[1, Fraction(3, 2)])
+    if kind == 'rpp':
+        d.surfs = [dk.Surf(1, 'rpp', [-a, a, Fraction(-2), Fraction(2), Fraction(-3), Fraction(3)])]
+        nf = 6
+    elif kind == 'box':
+        d.surfs = [dk.Surf(1, 'box', [Fraction(-1), Fraction(-1), Fraction(-1), (a * RatFn.const(2)) if isinstance(a, RatFn) else a * 2, 0, 0, 0, Fraction(2), 0, 0, 0, Fraction(3)])]
+        nf = 6
+    elif kind == 'rcc':
+        d.surfs = [dk.Surf(1, 'rcc', [0, 0, Fraction(-1), 0, 0, Fraction(4), a])]
+        nf = 3
+    else:
+        d.surfs = [dk.Surf(1, 'rhp', [0, 0, Fraction(-1), 0, 0, Fraction(4), 0, a, 0])]
+        nf = 8
+    d.surfs.append(dk.Surf(2, 'so', [Fraction(6)]))
+    k1 = rnd.randint(1, nf)
+    k2 = rnd.randint(1, nf)
+    e1 = ('and', ('s', rnd.choice([1, -1]), k1), ('s', -2))
+    if rnd.random() < 0.5:
+        e1 = ('and', ('s', 1, k1), ('s', -1, k2), ('s', -2)) if k1 != k2 else e1
+    placement = rnd.choice(['trcl', 'trcl', 'fill'])
+    if placement == 'trcl':
+        c1 = dk.Cell(1, e1, imp=1, trcl=gen.rand_tr(rnd, 't', pre, budget=bud, rot=(kind != 'rhp')))
+        d.cells.append(c1)
+        d.surfs.append(dk.Surf(3, 'so', [Fraction(30)]))
+        d.cells.append(dk.Cell(2, ('and', ('cell', 1), ('s', -3)), imp=1))
+        d.cells.append(dk.Cell(3, ('s', 3), imp=0))
+    else:
+        d.surfs.append(dk.Surf(3, 'so', [Fraction(30)]))
+        d.cells.append(dk.Cell(1, ('s', -3), imp=1, fill=1, filltr=gen.rand_tr(rnd, 'f', pre, budget=bud, rot=(kind != 'rhp'))))
+        d.cells.append(dk.Cell(2, e1, imp=1, u=1, mat=1, rho='-2.7'))
+        d.cells.append(dk.Cell(3, ('cell', 2), imp=1, u=1))
+        d.cells.append(dk.Cell(4, ('s', 3), imp=0))
+        d.mats = {1: [('13027', '1.0')]}
+    return d, pre
+
+
+def run_facet_deck(sd):
+    import random as _r
+    from . import deckprop
+    deck, pre = facet_deck(_r.Random(sd))
+    return deckprop.run_deck(PROP, 'facet-deck(%s)' % sd, deck, pre, timeout_ms=8000)
+
+
 def dispatch(task):
+    if task[0] == 'D':
+        return run_facet_deck(task[1])
     if task[0] == 'F':
         return run_facets(task[1])
     if task[0] == 'C':
@@ -554,13 +608,15 @@ def run(tier):
             pick = allsig
         for sg in dict.fromkeys(pick):
             tasks.append(('A', (a, sg)))
+    nfd = 16 if tier == 'quick' else 160
+    tasks += [('D', seed_value() * 7 + i) for i in range(nfd)]
     for r in run_pool(dispatch, tasks):
         rep.merge(r)
     rep.explanation = (
         'Bounded symbolic execution of the real macrobody code. (a) MacroBodies.<body> with all parameters symbolic: every '
         'returned facet is proven equal (same zero set, same outward side) to the facet MCNP numbers k, for all parameter '
         'values and all points. (b) the real chain to T4 surfaces and the real -b/+b/b.k expansion for orientations from a '
-        'finite rotation set with symbolic position and sizes. (c) the generic cylinder/cone primitives with all parameters symbolic.')
+        'finite rotation set with symbolic position and sizes. (c) the generic cylinder/cone primitives with all parameters symbolic. (d) decks whose cells are bounded by facets b.k and carry a TRCL or are placed by FILL, through the whole pipeline (the facet index must survive the transformation).')
     rep.bounds = {'parameters': 'layer (a): unbounded reals under MCNP admissibility; layer (b): position and sizes unbounded, '
                                 'orientation in %d rotations (%s)' % (len(rots), ', '.join(r[0] for r in rots)),
                   'arb': 'reference polytopes %s under an arbitrary symbolic non-degenerate affine map; helper orientation signs: %s' % (arbs, 'all' if tier != 'quick' else '5 sign vectors per type'),
